@@ -6,6 +6,7 @@ import (
 	"flag"
 	"fmt"
 	"os"
+	"os/exec"
 	"path/filepath"
 	"runtime/debug"
 	"sort"
@@ -45,9 +46,114 @@ func main() {
 			usage()
 		}
 		os.Exit(check(os.Args[2], os.Args[3:]))
+	case "selftest":
+		os.Exit(selftest(os.Args[2:]))
 	default:
 		usage()
 	}
+}
+
+type mutant struct {
+	Property string `json:"property"`
+	Expect   string `json:"expect_rule"` // substring that must occur in a VIOLATED/UNDECIDED line; "" with Silent
+	Silent   bool   `json:"silent"`      // repaired / behaviour-preserving variant: the check must pass
+	Note     string `json:"note"`
+	Edits    []edit `json:"edits"`
+}
+
+// selftest runs every mutant under <verif>/mutants (optionally only those of one property), one process per
+// variant, with evidence redirected to a scratch directory. Exit 0: all as expected; 2: the checker is broken.
+func selftest(args []string) int {
+	fs := flag.NewFlagSet("selftest", flag.ExitOnError)
+	root := fs.String("root", "/repo", "repository root")
+	verif := fs.String("verif", "/verif", "verif dir")
+	only := fs.String("property", "", "only this property")
+	_ = fs.Parse(args)
+	files, _ := filepath.Glob(filepath.Join(*verif, "mutants", "*", "*.json"))
+	sort.Strings(files)
+	self, _ := os.Executable()
+	scratch, err := os.MkdirTemp("", "seatalint-selftest")
+	if err != nil {
+		fmt.Println(err)
+		return 2
+	}
+	defer os.RemoveAll(scratch)
+	if b, err := os.ReadFile(filepath.Join(*verif, "known_findings.json")); err == nil {
+		_ = os.WriteFile(filepath.Join(scratch, "known_findings.json"), b, 0o644)
+	}
+	bad, ran, skipped := 0, 0, 0
+	for _, f := range files {
+		b, err := os.ReadFile(f)
+		if err != nil {
+			continue
+		}
+		var m mutant
+		if err := json.Unmarshal(b, &m); err != nil {
+			fmt.Printf("SELFTEST-FAILED %s: %v\n", f, err)
+			bad++
+			continue
+		}
+		if *only != "" && m.Property != *only {
+			continue
+		}
+		ov := filepath.Join(scratch, "ov.json")
+		eb, _ := json.Marshal(m.Edits)
+		_ = os.WriteFile(ov, eb, 0o644)
+		cmd := exec.Command(self, "check", m.Property, "-root", *root, "-verif", scratch, "-overlay", ov)
+		out, _ := cmd.CombinedOutput()
+		code := cmd.ProcessState.ExitCode()
+		name := strings.TrimPrefix(f, filepath.Join(*verif, "mutants")+"/")
+		switch {
+		case code == 3:
+			skipped++
+			fmt.Printf("selftest %-60s SKIPPED (the text it edits is not in the current tree)\n", name)
+		case m.Silent && code == 0:
+			ran++
+			fmt.Printf("selftest %-60s ok (silent as expected)\n", name)
+		case m.Silent:
+			bad++
+			fmt.Printf("SELFTEST-FAILED %s: a variant on which the property holds raised an alarm\n%s\n", name, firstLines(string(out), "VIOLATED", "UNDECIDED", "LOADER"))
+		case code == 1 && fired(string(out), m.Expect):
+			ran++
+			fmt.Printf("selftest %-60s ok (reported %s)\n", name, m.Expect)
+		default:
+			bad++
+			fmt.Printf("SELFTEST-FAILED %s: expected a report of %s, exit=%d\n%s\n", name, m.Expect, code, firstLines(string(out), "VIOLATED", "UNDECIDED", "LOADER", "=="))
+		}
+	}
+	fmt.Printf("selftest: %d variants behaved as expected, %d skipped, %d failed\n", ran, skipped, bad)
+	if bad > 0 {
+		return 2
+	}
+	return 0
+}
+
+func fired(out, expect string) bool {
+	for _, l := range strings.Split(out, "\n") {
+		if (strings.HasPrefix(l, "VIOLATED") || strings.HasPrefix(l, "UNDECIDED")) && strings.Contains(l, expect) {
+			return true
+		}
+	}
+	return false
+}
+
+func firstLines(out string, prefixes ...string) string {
+	var keep []string
+	for _, l := range strings.Split(out, "\n") {
+		for _, p := range prefixes {
+			if strings.HasPrefix(l, p) {
+				if len(l) > 300 {
+					l = l[:300]
+				}
+				keep = append(keep, "    "+l)
+				break
+			}
+		}
+	}
+	if len(keep) > 12 {
+		keep = keep[:12]
+	}
+	return strings.Join(keep, "\n")
 }
 
 func check(id string, args []string) (code int) {
